@@ -407,7 +407,7 @@ class DiscriminatedUnionUnpackerBuilder(AbstractUnpackerBuilder):
                 clean_id(type_name(spec.builder.default_dialect)),
             )
 
-        if discriminator.field:
+        if discriminator.field is not None:
             chosen_cls = f"{variants_map}[discriminator]"
             with lines.indent("try:"):
                 lines.append(f"discriminator = value[{discriminator.field!r}]")
@@ -541,7 +541,7 @@ class DiscriminatedUnionUnpackerBuilder(AbstractUnpackerBuilder):
                     "default_dialect=_default_dialect)"
                     ".add_unpack_method()"
                 )
-                if not self.discriminator.field:
+                if self.discriminator.field is None:
                     with lines.indent("try:"):
                         lines.append(f"return variant.{variant_method_call}")
                     lines.append("except Exception: pass")
@@ -559,7 +559,7 @@ class DiscriminatedUnionUnpackerBuilder(AbstractUnpackerBuilder):
                 f"attrs_registry={spec.attrs_registry_name})"
                 ".add_unpack_method()"
             )
-            if not self.discriminator.field:
+            if self.discriminator.field is None:
                 with lines.indent("try:"):
                     lines.append(f"return {attrs}.{variant_method_call}")
                 lines.append("except Exception: pass")
